@@ -146,7 +146,7 @@ Example D1_fits :
   fitsb (d_frags D_cyclic) 50 (d_sels D_cyclic) = false.
 Proof. vm_compute. repeat split; reflexivity. Qed.
 
-(** [C13_C04_validate_eq_no_gated_impls]: hypotheses met by a schema on which erasure deletes a field
+(** [C13_C04_validate_eq] / [C13_C04_validate_eq_no_gated_impls]: hypotheses met by a schema on which erasure deletes a field
     and a type (no interfaces, so no implementation can be gated); the common verdict of
     { a g h { x } } without fa is two "field does not exist" errors, with fa it is valid *)
 From ApiFu Require Vld.ValidatorModel Vld.ProofsCommon Feat.FeaturesVldRules.
@@ -168,7 +168,7 @@ Definition VD3 : Vld.Ast.document :=
          (FeaturesVld.vp 1 1)) ].
 Example C04_validate_eq_hypotheses :
   FeaturesVld.vok VW3 = true /\ FeaturesVldRules.impls_visible VW3 nil /\
-  FeaturesVld.vnodup (map fst (Vld.Ast.s_impls VW3)) = true /\
+  ValidatorModel.q_impl_features ValidatorModel.repaired = true /\
   List.length (Vld.Ast.s_types (FeaturesVld.verase VW3 nil)) = 2%nat /\
   (match ValidatorModel.validate_model ValidatorModel.repaired ValidatorModel.id_order VW3 nil VD3 with
    | Vld.Ast.Done errs => List.length errs | _ => 0%nat end) = 2%nat /\
